@@ -78,11 +78,19 @@ Notify == /\ inited /\ ~over /\ nops < MaxOps
 ServerAsks == /\ inited /\ ~over /\ stream /\ nops < MaxOps
               /\ wire' = Put("answer", TRUE) /\ res' = IF Fails("answer") THEN "noanswer" ELSE "ok"
               /\ nops' = nops + 1 /\ UNCHANGED <<cfg, sess, inited, stream, over>>
+\* the server issues a request of a method the client does not serve: the answer is an error, built by another code path
+ServerAsksOther == /\ inited /\ ~over /\ stream /\ nops < MaxOps
+                   /\ wire' = Put("answer", TRUE) /\ res' = IF Fails("answer") THEN "noanswer" ELSE "ok"
+                   /\ nops' = nops + 1 /\ UNCHANGED <<cfg, sess, inited, stream, over>>
+\* the server refuses the DELETE: the session lives on and later requests still carry its id
+TerminateRefused == /\ Client = "streamable" /\ inited /\ ~over /\ nops < MaxOps
+                    /\ wire' = Put("delete", TRUE) /\ res' = IF Fails("delete") THEN "err" ELSE "refused"
+                    /\ nops' = nops + 1 /\ UNCHANGED <<cfg, sess, inited, stream, over>>
 Terminate == /\ Client = "streamable" /\ inited /\ ~over
              /\ wire' = Put("delete", TRUE) /\ res' = IF Fails("delete") THEN "err" ELSE "ok"
              /\ over' = TRUE /\ nops' = nops + 1 /\ UNCHANGED <<cfg, sess, inited, stream>>
 
-Next == Initialize \/ Call \/ Notify \/ ServerAsks \/ Terminate
+Next == Initialize \/ Call \/ Notify \/ ServerAsks \/ ServerAsksOther \/ TerminateRefused \/ Terminate
 Spec == Init /\ [][Next]_vars
 
 (* The property, on every request on the wire *)
